@@ -56,7 +56,7 @@ open_fault: list = [None]       # callable(path, mode) -> errno | None
 _NO = object()
 _HEX32 = re.compile(r"[0-9a-f]{32}")
 
-FAULT_KINDS = ("crash", "enospc", "eio", "eacces", "emfile", "enoent")
+FAULT_KINDS = ("crash", "enospc", "eio", "eacces", "emfile", "enoent", "intr")
 
 # which errno-style fault makes sense at which kind of call
 APPLICABLE = {
@@ -493,6 +493,13 @@ class World:
             if self.on_crash is not None:
                 self.on_crash(proc, label)
             raise SimCrash()
+        if fk == "intr":
+            # the process is interrupted inside this call (Ctrl-C, a
+            # cancelled worker) - and lives on: the exception unwinds
+            # through chameleon into the caller, who may try again
+            self.fired[fk] = self.fired.get(fk, 0) + 1
+            self.log.add("FAULT", fk, proc.name, label)
+            raise KeyboardInterrupt()
         if kind in APPLICABLE.get(fk, ()) or fault.get("force"):
             self.fired[fk] = self.fired.get(fk, 0) + 1
             self.log.add("FAULT", fk, proc.name, label)
